@@ -144,6 +144,29 @@ def corr(ctx):
         ctx.count("statement:transitions_ok:%s" % r["transitions"])
         if r["static"] and (not r["sections"] or not r["rows"]):
             ctx.disagree("C03 statement fails on the model's document", dict(case, stage="parse"), "", "sections_ok/rows_ok false")
+    # round 2, measured statements on the model's documents after the modelled transforms (extracted checks of
+    # coq/Doc/Backends.v): every footnote starts with its label, every refid / backrefs value names an id of the document
+    # (a link reported as missing excepted), ids pairwise distinct
+    for case, r in zip(batch, M.model_measure(PID, "xfchk", batch)):
+        if r is None or not r["reply"].startswith("X "):
+            continue
+        ctx.corr_cases += 1
+        lf, rr, iu = (c == "1" for c in r["reply"][2:5])
+        ctx.count("measured:xform:label_first:%s" % lf)
+        ctx.count("measured:xform:refids_resolve:%s" % rr)
+        ctx.count("measured:xform:ids_unique:%s" % iu)
+        if not lf or not rr:
+            ctx.disagree("C03 statement (label first / refids resolve) fails on the model's transformed document",
+                         dict(case, stage="xform"), "", r["reply"])
+    # totality conjecture (static_total forests are rendered by the model)
+    for case, r in zip(batch, M.model_measure(PID, "total", batch)):
+        if r is None:
+            continue
+        ctx.corr_cases += 1
+        ctx.count("measured:totality:" + r["reply"].replace(" ", "_"))
+        if r["reply"] == "T 10":
+            ctx.disagree("totality statement: static_total forest that the model does not render", dict(case, stage="parse"),
+                         "", r["reply"])
     ctx.notes.append("correspondence: %d (case, stage) pairs outside the modelled subset (not compared)" % n_notmodelled)
     if batch:
         ctx.sample({"correspondence_case": batch[len(batch) // 3]})
